@@ -148,3 +148,13 @@ Proof.
   intros b Hb1 Hb2. apply in_flat_map in Hb2 as [a [Ha Hb2]].
   apply Hkey in Hb1. apply Hkey in Hb2. subst. congruence.
 Qed.
+
+Lemma filter_nil_iff' {A} (f : A -> bool) l : filter f l = [] <-> forall x, In x l -> f x = false.
+Proof.
+  induction l as [|x r IH]; simpl; [split; [intros _ y []|reflexivity]|].
+  destruct (f x) eqn:E; split.
+  - discriminate.
+  - intros H. specialize (H x (or_introl eq_refl)). congruence.
+  - intros H y [<-|Hy]; [assumption|]. apply IH; assumption.
+  - intros H. apply IH. intros y Hy. apply H. right; assumption.
+Qed.
